@@ -371,7 +371,7 @@ fn op_traj(em: &mut Em, metric: Metric, d: &Data, init: Vec<Vec<f64>>, mm: u64, 
 fn op_restarts(em: &mut Em, pool: &rayon::ThreadPool, metric: Metric, d: &Data, k: usize, init: Init, rr: usize, m: u64, tol: f64, seed: u64) {
     // the initial matrices are part of the request, so they are computed before the case is registered
     let xa = mat(&d.x);
-    let inits: Vec<Array2<f64>> = pool.install(|| inits_api(metric, k, &xa, &init, rr, seed));
+    let inits: Vec<Array2<f64>> = std::panic::catch_unwind(std::panic::AssertUnwindSafe(|| pool.install(|| inits_api(metric, k, &xa, &init, rr, seed)))).unwrap_or_default();
     let op = format!(
         "restarts metric={} X={} inits={} k={} m={} tol={} init={} seed={}",
         metric.name(),
@@ -389,9 +389,13 @@ fn op_restarts(em: &mut Em, pool: &rayon::ThreadPool, metric: Metric, d: &Data, 
     let x = d.x.clone();
     em.case_valid(op, &class, |ctx| {
         let qa = Array2::zeros((0, x[0].len()));
-        let bb = bbox(&x);
+        if inits.len() != rr {
+            ctx.fail("no_panic", &class, "the initialiser panicked on data with k <= n".to_string());
+            return "panic".to_string();
+        }
         for c in &inits {
-            ctx.require(in_bbox(&bb, &rows_of(c)), "init_returns_data_rows", &class, || format!("initial centroids {:?} outside the data", c));
+            let all_rows = rows_of(c).iter().all(|r| x.iter().any(|d| d.iter().zip(r).all(|(a, b)| a.to_bits() == b.to_bits())));
+            ctx.require(all_rows && c.nrows() == k, "init_returns_data_rows", &class, || format!("initial centroids {:?} are not {} rows of the data", c, k));
         }
         let mut parts = vec![];
         let mut prev: Option<f64> = None;
@@ -525,16 +529,36 @@ pub fn run(em: &mut Em, rng: &mut Rng) {
         op_update(em, cs, d.x.clone(), mem);
     }
     // fit from a precomputed matrix, predict / transform on training and new rows
-    for _ in 0..400 * scale {
+    for _ in 0..800 * scale {
         let d = gen_data(rng, big);
         let k = gen_k(rng, &d);
         let (init, ikind) = gen_init(rng, &d, k);
         let q = gen_queries(rng, &d, &init);
         let m = 1 + rng.below(if big { 12 } else { 6 }) as u64;
-        op_fit(em, *rng.pick(&METRICS), &d, init, ikind, m, gen_tol(rng), q);
+        let metric = *rng.pick(&METRICS);
+        let mut tol = gen_tol(rng);
+        if rng.chance(1, 4) {
+            // tolerance exactly on the shift of the first iteration: `distance < tolerance` is then
+            // false by equality and the loop must go on
+            let c0 = mat(&init);
+            let first = std::panic::catch_unwind(std::panic::AssertUnwindSafe(|| fit_api(metric, k, &mat(&d.x), &Array2::zeros((0, d.x[0].len())), &Init::Pre(c0.clone()), 1, 1, 1e-4, 0))).unwrap_or(None);
+            if let Some(f) = first {
+                let a: Vec<f64> = init.iter().flatten().cloned().collect();
+                let b: Vec<f64> = f.centroids.iter().flatten().cloned().collect();
+                let shift = match metric {
+                    Metric::L2 => metric.rd(&a, &b).sqrt(),
+                    _ => metric.rd(&a, &b),
+                };
+                if shift > 0.0 && shift.is_finite() {
+                    tol = shift;
+                    em.count("fit:tol=first_shift_exactly");
+                }
+            }
+        }
+        op_fit(em, metric, &d, init, ikind, m, tol, q);
     }
     // trajectories
-    for _ in 0..150 * scale {
+    for _ in 0..300 * scale {
         let d = gen_data(rng, big);
         let k = gen_k(rng, &d);
         let (init, _) = gen_init(rng, &d, k);
@@ -543,7 +567,7 @@ pub fn run(em: &mut Em, rng: &mut Rng) {
         op_traj(em, metric, &d, init, mm, *rng.pick(&[1e-4, 1e-9, 1e-2]));
     }
     // restarts with the random initialisers
-    for _ in 0..150 * scale {
+    for _ in 0..300 * scale {
         let d = gen_data(rng, big);
         let k = gen_k(rng, &d);
         let init = rng.pick(&[Init::Random, Init::Kpp, Init::Para]).clone();
